@@ -23,6 +23,9 @@ def _limits(mem_gb):
 
 def run_proc(cmd, timeout, mem_gb=None, cwd=HARNESS):
     t0 = time.time()
+    # coreutils `timeout` puts the command in its own process group and signals the whole group: even if this
+    # driver is killed, cargo-kani and its cbmc child cannot outlive the limit
+    cmd = ['timeout', '-k', '10', str(int(timeout) + 60)] + list(cmd)
     p = subprocess.Popen(cmd, cwd=cwd, env=env(), stdout=subprocess.PIPE, stderr=subprocess.STDOUT, text=True, preexec_fn=_limits(mem_gb))
     try:
         out, _ = p.communicate(timeout=timeout)
